@@ -13,6 +13,125 @@ from mc.core import REPO, HarnessError
 LIB = os.path.join(REPO, 'py_ballisticcalc') + os.sep
 
 
+CURRENT = [None]        # the Run being executed (one at a time per process)
+
+
+class CoopLock:
+    """Stand-in for threading.Lock inside the LIBRARY (installed by install_coop_locks): outside a scheduled run it is a plain lock; inside one,
+    a thread that finds the lock held by a parked thread hands the baton on instead of blocking the whole execution (a real lock would hang
+    the cooperative scheduler). Waiting for a lock is a forced switch, not a pre-emption."""
+
+    def __init__(self):
+        import _thread
+        self._real = _thread.allocate_lock()
+
+    def acquire(self, blocking=True, timeout=-1):
+        run = CURRENT[0]
+        tid = run.tid_of_current_thread() if run is not None else None
+        if tid is None:
+            return self._real.acquire(blocking, timeout)
+        while not self._real.acquire(False):
+            if not blocking:
+                return False
+            run.blocked(tid)
+        return True
+
+    def release(self):
+        self._real.release()
+
+    def locked(self):
+        return self._real.locked()
+
+    def _at_fork_reinit(self):
+        self._real._at_fork_reinit()
+
+    __enter__ = acquire
+
+    def __exit__(self, *a):
+        self.release()
+
+
+class CoopRLock:
+    def __init__(self):
+        self._lock = CoopLock()
+        self._owner = None
+        self._count = 0
+
+    def acquire(self, blocking=True, timeout=-1):
+        me = threading.get_ident()
+        if self._owner == me:
+            self._count += 1
+            return True
+        if not self._lock.acquire(blocking, timeout):
+            return False
+        self._owner, self._count = me, 1
+        return True
+
+    def release(self):
+        if self._owner != threading.get_ident():
+            raise RuntimeError('cannot release un-acquired lock')
+        self._count -= 1
+        if self._count == 0:
+            self._owner = None
+            self._lock.release()
+
+    def _is_owned(self):
+        return self._owner == threading.get_ident()
+
+    def _at_fork_reinit(self):
+        self._lock._at_fork_reinit()
+        self._owner, self._count = None, 0
+
+    __enter__ = acquire
+
+    def __exit__(self, *a):
+        self.release()
+
+
+class _ThreadingProxy:
+    """what a library module sees under the name `threading`: the real module, except that the locks it creates are cooperative"""
+    Lock = CoopLock
+    RLock = CoopRLock
+
+    def __getattr__(self, name):
+        return getattr(threading, name)
+
+
+def install_coop_locks(modules):
+    """replace the locks the library owns (module globals, class attributes) and the lock factories it will call later"""
+    import _thread
+    proxy = _ThreadingProxy()
+    real_rlock_type = type(threading.RLock())
+    n = 0
+
+    def swap(holder, name, val):
+        nonlocal n
+        new = None
+        if val is threading:
+            new = proxy
+        elif val is threading.Lock or val is _thread.allocate_lock:
+            new = CoopLock
+        elif val is threading.RLock:
+            new = CoopRLock
+        elif isinstance(val, _thread.LockType):
+            new = CoopLock()
+        elif isinstance(val, real_rlock_type):
+            new = CoopRLock()
+        if new is not None:
+            try:
+                setattr(holder, name, new)
+                n += 1
+            except (AttributeError, TypeError):
+                pass
+    for m in modules:
+        for name, val in list(vars(m).items()):
+            swap(m, name, val)
+            if isinstance(val, type) and getattr(val, '__module__', '') == m.__name__:
+                for a, b in list(vars(val).items()):
+                    swap(val, a, b)
+    return n
+
+
 class Run:
     def __init__(self, bodies, schedule=None, order=None, granularity='call', monitor=None):
         self.n = len(bodies)
@@ -27,6 +146,22 @@ class Run:
         self.main = threading.Semaphore(0)
         self.monitor = monitor      # callable(tid, frame) run at every point (shared-write monitor)
         self.switches = 0
+        self.idents = {}            # thread ident -> tid (for cooperative locks)
+        self.lock_waits = 0
+
+    def tid_of_current_thread(self):
+        return self.idents.get(threading.get_ident())
+
+    def blocked(self, tid):
+        """thread tid cannot go on (a lock it needs is held by a parked thread): hand the baton to the next thread that is not done"""
+        others = [j for j in self.order if j != tid and not self.done[j]]
+        if not others:
+            raise RuntimeError('deadlock: the lock is held and no other thread can run')
+        self.lock_waits += 1
+        if self.lock_waits > 100000:
+            raise RuntimeError('livelock: 100000 hand-overs while waiting for locks')
+        self.sems[others[0]].release()
+        self.sems[tid].acquire()
 
     def _tracer(self, tid):
         line = self.granularity == 'line'
@@ -60,6 +195,7 @@ class Run:
 
     def _thread(self, tid):
         self.sems[tid].acquire()
+        self.idents[threading.get_ident()] = tid
         sys.settrace(self._tracers[tid])
         try:
             self.results[tid] = self.bodies[tid]()
@@ -77,13 +213,17 @@ class Run:
     def run(self, timeout=120):
         self._tracers = [self._tracer(i) for i in range(self.n)]
         ths = [threading.Thread(target=self._thread, args=(i,), daemon=True) for i in range(self.n)]
-        for t in ths:
-            t.start()
-        self.sems[self.order[0]].release()
-        if not self.main.acquire(timeout=timeout):
-            raise HarnessError(f'schedule did not complete within {timeout}s (no enabled thread: deadlock, or runaway body)')
-        for t in ths:
-            t.join(timeout=10)
+        CURRENT[0] = self
+        try:
+            for t in ths:
+                t.start()
+            self.sems[self.order[0]].release()
+            if not self.main.acquire(timeout=timeout):
+                raise HarnessError(f'schedule did not complete within {timeout}s (no enabled thread: deadlock, or runaway body)')
+            for t in ths:
+                t.join(timeout=10)
+        finally:
+            CURRENT[0] = None
         return self.results
 
     def signature(self):
